@@ -1,10 +1,25 @@
-"""C01: a single leaf condition filters every item to its documented meaning."""
+"""C01: a single leaf condition filters every item to its documented meaning, never aborting."""
+from collections import Counter
+
 from .. import coqenc as E
+from ..passes import Case, run_passes
+from ..runner import jval, unjval
 from ..valgen import Gen, copy_value
 from ..condgen import CondGen
 from ..terms import COND_CLASSES, Leaf
 
-IMPORTS = "Py Lang Defs Cond Dsl Check Inst"
+PROP = "C01"
+IMPORTS = "Py Lang Defs Cond Dsl Check DocSem Inst"
+THEOREMS = ["C01_result", "C01_keyword_call", "C01_never_aborts", "C01_callable_meaning"]
+FACT_LEMMAS = ["Tie.tie_build", "Tie.tie_build_kw", "Tie.tie_call", "C01Proof.caught_pre_ok", "C01Proof.caught_call_ok",
+               "PyFacts.q_sem_err"]
+DEPENDS = ["Proofs/Tie.v", "Proofs/PyFacts.v", "Proofs/C01Proof.v", "Properties/C01.v", "Inst.v", "Cond.v", "Dsl.v",
+           "DocSem.v", "Lang.v", "Py.v", "Defs.v", "Gen/TablesGen.v", "Gen/CallablesGen.v", "Check.v"]
+ASSUMPTIONS = [
+    "Layer P models CPython's operators on JSON-like values (validated by pysem on every thorough run)",
+    "`str % value` is modelled by its outcome class only (StrFormat): a str or TypeError/ValueError/OverflowError/KeyError",
+    "documents: finite floats only, no NaN; strings are UTF-8, lower()/strip() exact for ASCII",
+]
 
 
 def impl_filter(term, doc):
@@ -13,15 +28,64 @@ def impl_filter(term, doc):
     return (list(fd.result), list(fd.data), list(fd.keys), list(fd.failure_indices))
 
 
+def impl_data_filter(term, doc):
+    from ..terms import valida
+    c = term.build()
+    fd = valida().Data(doc).filter(c)
+    return (list(fd.result), list(fd.data), list(fd.keys), list(fd.failure_indices))
+
+
+def impl_test(term, datum):
+    return term.build().test(datum)
+
+
+def impl_test_all(term, doc):
+    return term.build().test_all(doc)
+
+
 def doc_for(g, cls):
-    """A document whose items are adversarial to the class (every callable meets every item type)."""
     if cls.startswith("Key"):
-        kind = "dict" if g.r.random() < 0.92 else "list"
+        kind = "dict" if g.r.random() < 0.93 else "list"
     elif cls == "Index":
-        kind = "list" if g.r.random() < 0.92 else "dict"
+        kind = "list" if g.r.random() < 0.93 else "dict"
     else:
         kind = g.r.choice(["list", "dict"])
     return g.container(3, 5, kind)
+
+
+def leaf_json(t):
+    return {"cls": t.cls, "method": t.method, "args": [jval(a) for a in t.args],
+            "kwargs": {k: jval(a) for k, a in t.kwargs.items()}}
+
+
+def leaf_from_json(j):
+    return Leaf(j["cls"], j["method"], [unjval(a) for a in j["args"]], {k: unjval(a) for k, a in j["kwargs"].items()})
+
+
+def make_case(t, doc, entry="filter"):
+    fn = {"filter": impl_filter, "data_filter": impl_data_filter, "test": impl_test, "test_all": impl_test_all}[entry]
+    outcome = E.run_outcome(lambda: fn(t, copy_value(doc)))
+    try:
+        docc = E.enc_val(doc)
+        tc = t.coq()
+        impl = E.enc_res(outcome)
+    except E.Unencodable:
+        return None
+    kws = "[" + "; ".join(f"({E.enc_str(k)}, {E.enc_val(a)})" for k, a in t.kwargs.items()) + "]"
+    args = "[" + "; ".join(E.enc_val(a) for a in t.args) + "]"
+    if entry in ("filter", "data_filter"):
+        model = f"(run_filter {tc} {docc})"
+        oracle = f"(spec_filter_call {E.enc_str(t.cls)} {E.enc_str(t.method)} {args} {kws} {docc})"
+    elif entry == "test":
+        model = f"(run_test {tc} {docc})"
+        oracle = None
+    else:
+        model = f"(run_test_all {tc} {docc})"
+        oracle = None
+    nontrivial = outcome[0] == "ok" and entry in ("filter", "data_filter") and len(set(outcome[1][0])) > 1
+    descr = {"entry": entry, "leaf": leaf_json(t), "doc": jval(doc), "descr": t.descr(),
+             "impl": outcome[0] + ":" + (repr(outcome[1])[:300])}
+    return Case(descr, model, oracle, impl, outcome, nontrivial, key=(t.cls, t.method))
 
 
 def gen_cases(seed, n_per_method):
@@ -30,14 +94,82 @@ def gen_cases(seed, n_per_method):
     out = []
     for cls in COND_CLASSES:
         for (m, pk, va, kw) in cg.methods[cls]:
-            for _ in range(n_per_method):
+            for i in range(n_per_method):
                 doc = doc_for(g, cls)
                 t = cg.leaf(doc, cls=cls, method=m)
-                out.append((t, doc))
+                entry = "filter"
+                k = g.r.random()
+                if k < 0.06:
+                    entry = "data_filter"
+                elif k < 0.12:
+                    entry = "test_all"
+                elif k < 0.18:
+                    entry = "test"
+                    if cls.startswith("Key"):
+                        doc = {g.key(): g.value(2, 3)} if g.r.random() < 0.8 else g.container(2, 3)
+                    else:
+                        doc = g.value(2, 4)
+                c = make_case(t, doc, entry)
+                if c:
+                    out.append(c)
     return out
 
 
-def to_case(t, doc):
-    outcome = E.run_outcome(lambda: impl_filter(t, copy_value(doc)))
-    model = f"(run_filter {t.coq()} {E.enc_val(doc)})"
-    return model, E.enc_res(outcome), outcome
+CORPUS = [
+    # minimised past failures / fixed defects (replayed first on every run)
+    (Leaf("Value", "factor_of", [4]), [0, 2]),
+    (Leaf("Value", "has_factor", [2]), ["%z"]),
+    (Leaf("Value", "has_factor", [2]), ["100%"]),
+    (Leaf("Value", "has_factor", [0]), [3]),
+    (Leaf("Value", "has_factor", [{}]), ["%(k)s"]),
+    (Leaf("Value", "has_factor", [0.0]), [1.5, 2]),
+    (Leaf("Value", "not_in_range", [1, 3]), [0, 1, 2, 3, 2.0, True, "a"]),
+    (Leaf("Value", "not_in_range", [], {"lower": 1, "upper": 3}), [5]),
+    (Leaf("Value", "in_range", [1, 3]), [0, 1, 2, 3, 2.0, True, "a", 2 ** 70]),
+    (Leaf("Value", "equal_to", [1]), [1, 1.0, True, "1"]),
+    (Leaf("ValueLength", "less_than", [2]), ["a", 3, [1, 2]]),
+    (Leaf("Key", "equal_to", [1]), {1: "a", "1": "b"}),
+    (Leaf("Key", "equal_to", [1]), [1, 2]),
+    (Leaf("Index", "equal_to", [1]), {1: "a"}),
+    (Leaf("Value", "items_contain", [], {"a": 1}), [{"a": 1}, {"a": 2}, {}, [1], "a", None]),
+    (Leaf("Value", "keys_contain_any_of", []), [1, {}]),
+    (Leaf("Value", "required_keys", ["a", [1]]), [{"a": 1}]),
+    (Leaf("Value", "equal_to_approx", [1.0]), [1.0, 1.00000001, 1.000000001, 1, True, "a"]),
+    (Leaf("Value", "less_than", [[1, "a"]]), [[2, 3], [1, 3], [1, "a"], [1]]),
+]
+
+
+def run(tier, seed, model_ok, spec_ok, replay=None):
+    if replay:
+        j = replay["case"]
+        cases = [make_case(leaf_from_json(j["leaf"]), unjval(j["doc"]), j.get("entry", "filter"))]
+    else:
+        n = 6 if tier == "quick" else 120
+        cases = [make_case(t, d) for t, d in CORPUS]
+        cases = [c for c in cases if c] + gen_cases(seed, n)
+    k_bad, o_bad, nk, no, err = run_passes("c01", IMPORTS, cases, model_ok, spec_ok)
+    dist = Counter()
+    for c in cases:
+        dist["outcome:" + (c.outcome[1] if c.outcome[0] == "exc" else "ok")] += 1
+        dist["entry:" + c.descr["entry"]] += 1
+    distinct = {(c.key, c.descr["impl"]) for c in cases if c.nontrivial}
+    res = {
+        "evaluations": len(cases), "k_cases": nk, "o_cases": no,
+        "nontrivial": len(distinct),
+        "rule": "every condition class x every DSL constructor it exposes x n documents (arguments 60% drawn from the "
+                "document); non-trivial = the filter returned a result vector that is not constant; distinct by "
+                "(class, constructor, implementation outcome)",
+        "samples": [c.descr for c in cases[len(CORPUS):len(CORPUS) + 3]] + [c.descr for c in cases[:2]],
+        "k_mismatch": [cases[i].descr for i in k_bad],
+        "o_violations": [cases[i].descr for i in o_bad],
+        "distribution": dict(dist),
+    }
+    if err:
+        res["k_mismatch"] = res["k_mismatch"] or [{"coq-eval-error": err}]
+    return res
+
+
+def matches_known(known, case):
+    m = known.get("match", {})
+    leaf = case.get("leaf", {})
+    return all(leaf.get(k) == v for k, v in m.items())
